@@ -167,6 +167,7 @@ type Thread struct {
 	done    bool
 	name    string
 	panicV  *PanicInfo
+	noPre   ssa.Instruction // the sync operation this thread resumes with (no second preemption there)
 }
 
 type PanicInfo struct {
@@ -231,6 +232,8 @@ type State struct {
 	jsGlobals map[string]Value
 	steps     int64
 	selForks  int
+	preemptOn bool // inside a vsymPreemptWindow
+	preempts  int // context switches forced at synchronisation points (bounded by param preempt)
 	writes    []*StrV
 }
 
@@ -259,6 +262,8 @@ func (s *State) fork() *State {
 		jsGlobals: s.jsGlobals,
 		steps:     s.steps,
 		selForks:  s.selForks,
+		preempts:  s.preempts,
+		preemptOn: s.preemptOn,
 		access:    append([]AccessRec(nil), s.access...),
 		writes:    append([]*StrV(nil), s.writes...),
 	}
@@ -275,7 +280,7 @@ func (s *State) fork() *State {
 	s.domOwned = false
 	n.threads = make([]*Thread, len(s.threads))
 	for i, t := range s.threads {
-		nt := &Thread{blocked: t.blocked, done: t.done, name: t.name, panicV: t.panicV}
+		nt := &Thread{blocked: t.blocked, done: t.done, name: t.name, panicV: t.panicV, noPre: t.noPre}
 		nt.frames = make([]*Frame, len(t.frames))
 		for j, f := range t.frames {
 			nt.frames[j] = f.clone()
